@@ -27,6 +27,7 @@ from __future__ import annotations
 
 import asyncio
 import contextlib
+import json
 import logging
 import socket
 import ssl
@@ -187,12 +188,15 @@ class Capture(logging.Handler):
 # ----------------------------------------------------------------------------------------------------------------------
 class Loop(asyncio.SelectorEventLoop):
     setup_fault: dict[int, Tree] = {}
+    accepted_ports: list[int] = []      # peer port of every connection the servers of this loop accepted (reset per case)
 
     async def connect_accepted_socket(self, protocol_factory, sock, **kw):  # type: ignore[override]
         try:
             port = sock.getpeername()[1]
         except OSError:
             port = None
+        if port is not None:
+            self.accepted_ports.append(port)
         t = self.setup_fault.pop(port, None) if port is not None else None
         if t is not None:
             self.fault_raised = True
@@ -1128,6 +1132,7 @@ def _run_once(case: dict, scale: float) -> tuple[list[str], Plan]:
     loop = _get_loop()
     loop.fault_raised = False  # type: ignore[attr-defined]
     loop.setup_fault.clear()
+    loop.accepted_ports = []
     asyncio.set_event_loop(loop)
     # `eager`: the event loop creates its tasks with asyncio.eager_task_factory (a configuration the servers support
     # explicitly): the first step of every new task — a per-datagram handler task, a re-spawned client coroutine, an accepted
@@ -1192,6 +1197,13 @@ def _run_once(case: dict, scale: float) -> tuple[list[str], Plan]:
     out.append(f"healthy-hooks {'ok' if not bad_pairs else 'unbalanced:' + ','.join(bad_pairs)}")
     if interrupts:
         out.append("loop-interrupted " + ",".join(interrupts))
+    strays = [p for p in loop.accepted_ports if p not in plan.who]
+    if strays:
+        # a connection from a source port that belongs to none of this case's clients: another process of this machine
+        # (loopback ports are recycled quickly when many checks run at once) talked to our server.  Whatever the server
+        # logged about it (a TLS handshake error for plain-text bytes, an unknown client's hooks) is not an observation
+        # of this case: run_case() runs the case again
+        out.append(f"foreign-connections {len(strays)}")
     return out, plan
 
 
@@ -1209,16 +1221,31 @@ def _unbalanced(events: list[str]) -> list[str]:
     return bad
 
 
+FOREIGN_RERUNS: list[str] = []       # cases run again because a foreign process connected to the server (evidence file)
+
+
 def run_case(case: dict) -> list[str]:
-    """canonical lines of one case; harness-side timeouts: retry once with longer bounds, then report them"""
+    """canonical lines of one case; harness-side timeouts: retry once with longer bounds, then report them; a connection
+    from a process that is none of ours (`foreign-connections`): the case is run again (three in a row: InfraError)"""
     last: list[str] = []
-    for attempt, scale in enumerate((1.0, 4.0)):
+    foreign = 0
+    for attempt, scale in enumerate((1.0, 4.0, 4.0, 4.0)):
+        if attempt >= 2 and not foreign:
+            break
         try:
             lines, plan = _run_once(case, scale)
         except HarnessTimeout:
             reset_loop()
-            if attempt == 1:
+            if attempt >= 1:
                 raise core.InfraError("C17: the server did not come up (twice)")
+            continue
+        if any(x.startswith("foreign-connections ") for x in lines):
+            foreign += 1
+            FOREIGN_RERUNS.append(json.dumps(case, sort_keys=True)[:300])
+            if foreign >= 3:
+                raise core.InfraError("C17: a process which is none of the harness's clients connected to the server under test, three runs in a row")
+            reset_loop()
+            last = lines
             continue
         if not plan.timeouts:
             return lines
